@@ -841,11 +841,18 @@ class Index(MutableMapping):
 
         """
         _cache = self._cache
-        while True:
+        try:
+            return _cache[key]
+        except KeyError:
+            pass
+        # Look up again and add under one write lock so that `default` is
+        # added at most once, however other clients interleave.
+        with _cache.transact(retry=True):
             try:
                 return _cache[key]
             except KeyError:
                 _cache.add(key, default, retry=True)
+                return _cache[key]
 
     def peekitem(self, last=True):
         """Peek at key and value item pair in index based on iteration order.
